@@ -295,3 +295,35 @@ class NonMultipleOf(MultipleOf):
 
 register_type("mc_mult", MultipleOf)
 register_type("mc_nmult", NonMultipleOf)
+
+
+# A user-defined type with a `value` prop whose validation is NOT plain equality with that
+# value: a token compared case-insensitively (C15: schema == value means "the value validates",
+# whatever the type's props are called).
+class Token(CustomSchema[Props]):
+    def __call__(self, value: str) -> "Token":
+        return self.__class__(self.props.update(value=value))
+
+    def __represent__(self, visitor: Any, *, indent: int = 0, **kwargs: Any) -> str:
+        return f"schema.mc_token({self.props.get('value')!r})"
+
+    def __generate__(self, visitor: Any, **kwargs: Any) -> Any:
+        return self.props.get("value", "t")
+
+    def __validate__(self, visitor: Any, *, value: Any = Nil, path: Any = Nil, **kwargs: Any) -> Any:
+        from d42.validation.errors import TypeValidationError, ValueValidationError
+        result = visitor.make_validation_result()
+        if path is Nil:
+            path = visitor.make_path()
+        want = self.props.get("value")
+        if not isinstance(value, str):
+            result.add_error(TypeValidationError(path, value, str))
+        elif want is not Nil and value.lower() != want.lower():
+            result.add_error(ValueValidationError(path, value, want))
+        return result
+
+    def __substitute__(self, visitor: Any, *, value: Any = Nil, **kwargs: Any) -> Any:
+        return self
+
+
+register_type("mc_token", Token)
